@@ -456,7 +456,8 @@ Definition invalid_default_beside_type_expression (F : features) (d : dinput) : 
   default_has_expression F d &&
   existsb (fun x => names F TDefault (snd x) && negb (empty_list (snd x))) (item_metas d).
 
-(** * R12 (continued) — `name` on a field that Debug shows positionally *)
+(** * R12 (continued) — `name` (the parameter, or the shorthand `Debug = name`) on a field that
+      Debug shows positionally *)
 
 (** the literal `false` as the value of parameter [k]: `k = false`, `k(false)` *)
 Definition param_false (k : string) (m : meta) : bool :=
@@ -478,9 +479,28 @@ Definition positional (is_tuple : bool) (owner : option meta) : bool :=
 
 Definition is_tuple_fields (fs : fields) : bool := match fs with FUnnamed _ => true | _ => false end.
 
-(** the field carries `Debug(name ..)` / `Debug(rename ..)` *)
+(** the value of a name-value item is a boolean literal: `= true`, `= false` *)
+Definition bool_value (v : nvexpr) : bool :=
+  match v with
+  | XLit t => match is_bool_tok t with Some _ => true | None => false end
+  | _ => false
+  end.
+
+(** the shorthand `Debug = first` / `Debug = "first"`: on a field, a name-value `Debug` item whose
+    value is not a boolean literal gives the field a NAME (an identifier, or a string holding one;
+    `Debug = false` / `Debug = true` is the other shorthand, "ignore this field" / "show it").
+    Any value that is not a boolean literal counts: where no name can be given, a boolean is the
+    only value the shorthand takes. *)
+Definition name_shorthand (m : meta) : bool :=
+  match m with
+  | MNameValue _ v => negb (bool_value v)
+  | _ => false
+  end.
+
+(** the field carries `Debug(name ..)` / `Debug(rename ..)`, or the shorthand `Debug = name` *)
 Definition has_name_param (F : features) (f : field) : bool :=
-  existsb (fun m => names F TDebug m && existsb (key_is "name") (params LPlain m))
+  existsb (fun m => names F TDebug m
+                    && (existsb (key_is "name") (params LPlain m) || name_shorthand m))
           (educe_metas (f_attrs f)).
 
 Definition invalid_name_on_positional (F : features) (d : dinput) : bool :=
